@@ -24,6 +24,7 @@ A case (one element of one call) is non-trivial when the reply is a finite numbe
 """
 import json
 import math
+import traceback
 import warnings
 
 from . import common as C
@@ -290,7 +291,13 @@ class Obj:
             return "err", "other:" + msg[:60]
         except Exception as e:  # noqa
             return "err", "exc:" + type(e).__name__ + ":" + str(e)[:60]
-        return "ok", np.asarray(r, dtype=np.float64)
+        try:
+            r = np.asarray(r, dtype=np.float64)
+        except Exception as e:  # noqa
+            return "err", "shape:not an array of floats (" + type(e).__name__ + ")"
+        if r.shape != a.shape:
+            return "err", f"shape:result {r.shape}, expected {a.shape}"
+        return "ok", r
 
     def after_call(self, status):
         """what the inner BoxCox2 holds after a call (the harness' own bookkeeping of the model state)"""
@@ -757,6 +764,37 @@ def body(ctx):
                     f"argument by more than 1e-6 relative (or is NaN) inside the conditioning region",
                     {"class": cls, "params": P, what_in: a, "mid": b_, "back": back, "tolerance": tol})
 
+    def make(cls, ctor, params, via_get):
+        """exception-safe construction: a constructor / get_transform / attribute assignment that raises on an
+        admissible setting is a finding, not a crash of the check"""
+        try:
+            return Obj(T, cls, ctor, params, via_get)
+        except Exception as e:  # noqa
+            ctx.finding(f"{cls}/construct/raises", "building the transform with admissible options and parameters raises "
+                        + type(e).__name__ + ": " + str(e)[:80],
+                        {"class": cls, "ctor": ctor, "params": params, "via_get_transform": via_get})
+            return None
+
+    def safe_setp(o, **kw):
+        try:
+            o.setp(**kw)
+            return True
+        except Exception as e:  # noqa
+            ctx.finding(f"{o.cls}/setattr/raises", "assigning an admissible parameter value raises "
+                        + type(e).__name__ + ": " + str(e)[:80], {"class": o.cls, "ctor": o.ctor, "set": kw})
+            return False
+
+    def guarded(cls, what, fn):
+        """last resort around one object's whole exercise: anything the real code throws at the harness outside the
+        individually protected calls is reported against that object instead of aborting the run"""
+        try:
+            fn()
+        except Exception as e:  # noqa
+            tb = traceback.extract_tb(e.__traceback__)
+            where = "; ".join(f"{t.filename.rsplit('/', 1)[-1]}:{t.lineno}" for t in tb[-3:])
+            ctx.finding(f"{cls}/{what}/unexpected_exception", "exercising the transform raised "
+                        + type(e).__name__ + ": " + str(e)[:80] + " at " + where, {"class": cls})
+
     def ydir(o, P, ys, note):
         """backward on image-side inputs (correspondence) + forward(backward(y)) oracle"""
         st3, xv = submit(o, "bwd", ys, note=note)
@@ -817,11 +855,11 @@ def body(ctx):
         newp = rng.choice(cand)
         keys = [k for k in newp if rng.random() < 0.6] or [rng.choice(list(newp))]
         kw = {k: newp[k] for k in keys}
-        o.setp(**kw)
+        safe_setp(o, **kw)
         if cls == "BoxCox2sym":
             p = o.P()
             if p["nu"] < 0 or (p["nu"] == 0 and not p["lam"] > EPS):
-                o.setp(nu=0.3)
+                safe_setp(o, nu=0.3)
 
     def session(o, nsteps, nin=12):
         """a history on ONE reused object: set-params / forward / backward / jacobian / backward_censored in random
@@ -858,60 +896,70 @@ def body(ctx):
     if cdir.exists():
         for f in sorted(cdir.glob("*.json")):
             cc = json.loads(f.read_text())
-            o = Obj(T, cc["class"], cc.get("ctor", {}), cc.get("params", {}), cc.get("via_get", False))
-            for stp in cc.get("steps", [{}]):
-                o.setp(**stp.get("set", {}))
-                exercise(o, 14, note="corpus:" + f.name, first=stp.get("first"))
+
+            def run_corpus(cc=cc, f=f):
+                o = make(cc["class"], cc.get("ctor", {}), cc.get("params", {}), cc.get("via_get", False))
+                if o is None:
+                    return
+                for stp in cc.get("steps", [{}]):
+                    safe_setp(o, **stp.get("set", {}))
+                    exercise(o, 14, note="corpus:" + f.name, first=stp.get("first"))
+            guarded(cc["class"], "corpus", run_corpus)
 
     # ---------------- scalar classes
     ncfg = ctx.scale(120, 700)
     nin = ctx.scale(44, 64)
     scalar_classes = ["Identity", "Logit", "Log", "BoxCox2", "BoxCox1lam", "BoxCox1nu", "BoxCox2sym", "YeoJohnson",
                       "LogSinh", "Reciprocal", "Sinh", "Manly"]
+    def one_config(cls, i, ctor, params):
+        o = make(cls, ctor, params, via_get=(i % 2 == 1))
+        if o is None:
+            return
+        twin = make(cls, ctor, params, via_get=False) if o.via_get else None
+        if twin is not None:
+            pa, pb = o.P(), twin.P()
+            if {k: C.f2h(v) if isinstance(v, float) else v for k, v in pa.items()} != \
+                    {k: C.f2h(v) if isinstance(v, float) else v for k, v in pb.items()}:
+                ctx.finding(f"get_transform/{cls}/differs_from_direct_setting",
+                            "get_transform(name, **kw) does not hold the parameter / constant values that setting the "
+                            "same attributes on a fresh instance gives",
+                            {"class": cls, "ctor": ctor, "requested": params, "get_transform": pa, "direct": pb})
+        exercise(o, nin)
+        if cls in STATEFUL or (cls in ("LogSinh", "Manly") and i % 5 == 0):
+            # histories: change parameters between calls; the inner BoxCox2 / constants must follow
+            for step in range(ctx.scale(2, 4)):
+                p = o.P()
+                if cls in STATEFUL:
+                    minilam = o.ctor.get("minilam", 0.0)
+                    kw = {}
+                    r = rng.random()
+                    if r < 0.6:
+                        kw["nu"] = rng.choice(nu_pool(rng, p["mininu"]))
+                        if cls == "BoxCox2sym" and kw["nu"] <= 0:
+                            kw["nu"] = 0.7 if kw["nu"] < 0 or not p["lam"] > EPS else 0.0
+                    if r > 0.3:
+                        kw["lam"] = rng.choice(lam_pool(rng, minilam))
+                        if cls == "BoxCox2sym" and kw.get("nu", p["nu"]) == 0 and not kw["lam"] > EPS:
+                            kw["lam"] = 0.5
+                    safe_setp(o, **kw)
+                elif cls == "LogSinh":
+                    safe_setp(o, xmax=10 ** rng.uniform(-2, 3), loga=rng.uniform(-20, 0))
+                else:
+                    safe_setp(o, xmax=10 ** rng.uniform(-2, 3), lam=rng.choice([0.0, 1e-10, 0.5, -2.0, 1e-3]))
+                exercise(o, max(12, nin // 3), note=f"history step {step + 1}")
+        # random call orders on the reused object (and on a fresh one: the first call may be any method)
+        if cls in STATEFUL:
+            session(o, ctx.scale(6, 8))
+            fresh = make(cls, ctor, params, via_get=(i % 2 == 0))
+            if fresh is not None:
+                session(fresh, 4)
+        elif i % 3 == 0 and cls != "Identity":
+            session(o, 4)
+
     for cls in scalar_classes:
         cfgs = configs(cls, rng, 1 if cls == "Identity" else ncfg)
         for i, (ctor, params) in enumerate(cfgs):
-            o = Obj(T, cls, ctor, params, via_get=(i % 2 == 1))
-            if o.via_get:
-                twin = Obj(T, cls, ctor, params, via_get=False)
-                pa, pb = o.P(), twin.P()
-                if {k: C.f2h(v) if isinstance(v, float) else v for k, v in pa.items()} != \
-                        {k: C.f2h(v) if isinstance(v, float) else v for k, v in pb.items()}:
-                    ctx.finding(f"get_transform/{cls}/differs_from_direct_setting",
-                                "get_transform(name, **kw) does not hold the parameter / constant values that setting the "
-                                "same attributes on a fresh instance gives",
-                                {"class": cls, "ctor": ctor, "requested": params, "get_transform": pa, "direct": pb})
-            exercise(o, nin)
-            if cls in STATEFUL or (cls in ("LogSinh", "Manly") and i % 5 == 0):
-                # histories: change parameters between calls; the inner BoxCox2 / constants must follow
-                for step in range(ctx.scale(2, 4)):
-                    p = o.P()
-                    if cls in STATEFUL:
-                        minilam = o.ctor.get("minilam", 0.0)
-                        kw = {}
-                        r = rng.random()
-                        if r < 0.6:
-                            kw["nu"] = rng.choice(nu_pool(rng, p["mininu"]))
-                            if cls == "BoxCox2sym" and kw["nu"] <= 0:
-                                kw["nu"] = 0.7 if kw["nu"] < 0 or not p["lam"] > EPS else 0.0
-                        if r > 0.3:
-                            kw["lam"] = rng.choice(lam_pool(rng, minilam))
-                            if cls == "BoxCox2sym" and kw.get("nu", p["nu"]) == 0 and not kw["lam"] > EPS:
-                                kw["lam"] = 0.5
-                        o.setp(**kw)
-                    elif cls == "LogSinh":
-                        o.setp(xmax=10 ** rng.uniform(-2, 3), loga=rng.uniform(-20, 0))
-                    else:
-                        o.setp(xmax=10 ** rng.uniform(-2, 3), lam=rng.choice([0.0, 1e-10, 0.5, -2.0, 1e-3]))
-                    exercise(o, max(12, nin // 3), note=f"history step {step + 1}")
-            # random call orders on the reused object (and on a fresh one: the first call may be any method)
-            if cls in STATEFUL:
-                session(o, ctx.scale(6, 8))
-                session(Obj(T, cls, ctor, {k: v for k, v in params.items() if v is not None}
-                            if all(v is not None for v in params.values()) else params, via_get=(i % 2 == 0)), 4)
-            elif i % 3 == 0 and cls != "Identity":
-                session(o, 4)
-
+            guarded(cls, "exercise", lambda: one_config(cls, i, ctor, params))
 
     # ---------------- dense sweeps of lam through the branch switches
     nsw = ctx.scale(60, 700)
@@ -926,14 +974,70 @@ def body(ctx):
         sweeps.append(("YeoJohnson", {}, {"nu": rng.choice([0.0, 0.4, -2.0]), "scale": rng.choice([1.0, 0.1, 25.0]),
                                           "lam": 2 + sg * (1e-8 + 2e-5) * f}))
     for k, (cls, ctor, params) in enumerate(sweeps):
-        exercise(Obj(T, cls, ctor, params, via_get=(k % 2 == 0)), 14, note="lam sweep")
+        o = make(cls, ctor, params, via_get=(k % 2 == 0))
+        if o is not None:
+            guarded(cls, "sweep", lambda: exercise(o, 14, note="lam sweep"))
 
-    # ---------------- Softmax (2-D)
+    # ---------------- Softmax (2-D): shapes 1 x n, n x 1, n x n, m x n (m != n), both directions, shapes checked
     sm = T.Softmax()
+
+    def sm_call(op, arr):
+        """exception-safe call -> ('ok', ndarray of the expected shape) | ('err', name of a documented rejection) |
+        ('exc', text) for any other exception | ('shape', text) for a result of unexpected shape/type"""
+        want = (arr.shape[0],) if op == "jac" else arr.shape
+        try:
+            with np.errstate(all="ignore"):
+                r = sm.forward(arr) if op == "fwd" else sm.backward(arr) if op == "bwd" else sm.jacobian(arr)
+        except ValueError as e:
+            known = next((v for k, v in ERRMAP if k in str(e)), None)
+            if known is not None and op != "bwd":
+                return "err", known
+            return "exc", "ValueError:" + str(e)[:80]
+        except Exception as e:  # noqa
+            return "exc", type(e).__name__ + ":" + str(e)[:80]
+        try:
+            r = np.asarray(r, dtype=np.float64)
+        except Exception as e:  # noqa
+            return "shape", "not an array of floats: " + type(e).__name__
+        if r.shape != want:
+            return "shape", f"result shape {r.shape}, expected {want}"
+        return "ok", r
+
+    def sm_report(op, status, payload, rows, inside):
+        """an unexpected exception / shape inside the quantifier is a finding"""
+        if status in ("exc", "shape") and inside:
+            ctx.finding(f"Softmax/{ {'fwd': 'forward', 'bwd': 'backward', 'jac': 'jacobian'}[op] }/"
+                        + ("raises" if status == "exc" else "wrong_shape"),
+                        f"Softmax.{op} on a valid 2-D array of shape {len(rows)}x{len(rows[0])}: " + str(payload),
+                        {"rows": rows, "shape": [len(rows), len(rows[0])], "problem": payload})
+
+    def sm_queue(op, status, payload, rows, kind):
+        reqs.append(f"{op} Softmax [] {C.fmat(rows)}")
+        if status == "ok":
+            checks.append(("ok", payload, {"class": "Softmax", "op": op, "rows": rows, "kind": kind}, None))
+        else:
+            checks.append(("err", payload if status == "err" else f"{status}:{payload}",
+                           {"class": "Softmax", "op": op, "rows": rows, "kind": kind}, None))
+
+    def sm_shape():
+        k = rng.choice(["1xn", "nx1", "nxn", "mxn", "mxn", "any"])
+        n = rng.randint(1, 6)
+        if k == "1xn":
+            return 1, n
+        if k == "nx1":
+            return n, 1
+        if k == "nxn":
+            return n, n
+        if k == "mxn":
+            m = rng.randint(1, 6)
+            while m == n:
+                m = rng.randint(1, 6)
+            return m, n
+        return rng.randint(1, 4), rng.randint(1, 7)
+
     nsm = ctx.scale(600, 8000)
     for it in range(nsm):
-        ncol = rng.randint(1, 7)
-        nrow = rng.randint(1, 4)
+        nrow, ncol = sm_shape()
         kind = rng.choice(["ok", "ok", "ok", "edge", "neg", "big", "tiny"])
         rows = []
         for _ in range(nrow):
@@ -954,56 +1058,52 @@ def body(ctx):
         elif kind == "tiny":
             rows[0] = [1e-300] * ncol
         arr = np.array(rows, dtype=np.float64)
-        for op in ("fwd", "jac"):
-            try:
-                with np.errstate(all="ignore"):
-                    r = sm.forward(arr) if op == "fwd" else sm.jacobian(arr)
-                status, payload = "ok", np.asarray(r, dtype=np.float64)
-            except ValueError as e:
-                status, payload = "err", next((v for k, v in ERRMAP if k in str(e)), "other:" + str(e)[:40])
-            reqs.append(f"{op} Softmax [] {C.fmat(rows)}")
-            checks.append((status, payload, {"class": "Softmax", "op": op, "rows": rows, "kind": kind}, None))
-        # oracle + backward correspondence on accepted rows
-        try:
-            with np.errstate(all="ignore"):
-                y = sm.forward(arr)
-            xb = sm.backward(y)
-            accepted = True
-        except ValueError:
-            accepted = False
         valid = all(v >= 0 for r in rows for v in r) and all(math.fsum(r) <= 1 - EPS - 1e-13 for r in rows)
-        if valid and not accepted:
-            ctx.finding("Softmax/rejects_valid", "a 2-D array with non-negative rows summing below 1-EPS was rejected",
-                        {"rows": rows})
-        if accepted:
-            for r, yr, br in zip(rows, y, xb):
-                for a, m_, bk in zip(r, yr, br):
-                    if a >= 1e-300 and not (fin(float(bk)) and abs(float(bk) - a) <= 1e-6 * a):
-                        ctx.finding("Softmax/roundtrip_x/row", "backward(forward(x)) differs from x by more than 1e-6 relative",
-                                    {"rows": rows, "x": a, "mid": float(m_), "back": float(bk)})
+        res = {}
+        for op in ("fwd", "jac"):
+            status, payload = sm_call(op, arr)
+            res[op] = (status, payload)
+            sm_report(op, status, payload, rows, valid)
+            sm_queue(op, status, payload, rows, kind)
+            if valid and status == "err":
+                ctx.finding("Softmax/rejects_valid", "a 2-D array with non-negative rows summing below 1-EPS was rejected",
+                            {"rows": rows, "op": op, "error": payload})
+        # x-direction: backward(forward(x)) on accepted arrays
+        if res["fwd"][0] == "ok":
+            y = res["fwd"][1]
             yrows = [[float(v) for v in yr] for yr in y]
-            if all(fin(v) for r in yrows for v in r):
-                reqs.append(f"bwd Softmax [] {C.fmat(yrows)}")
-                checks.append(("ok", np.asarray(xb, dtype=np.float64),
-                               {"class": "Softmax", "op": "bwd", "rows": yrows, "kind": kind}, None))
-        # y-direction
+            yfin = all(fin(v) for r in yrows for v in r)
+            stb, xb = sm_call("bwd", np.array(yrows, dtype=np.float64))
+            sm_report("bwd", stb, xb, yrows, valid and yfin)
+            if yfin:
+                sm_queue("bwd", stb, xb, yrows, kind)
+            if stb == "ok":
+                for r, yr, br in zip(rows, y, xb):
+                    for a, m_, bk in zip(r, yr, br):
+                        if a >= 1e-300 and not (fin(float(bk)) and abs(float(bk) - a) <= 1e-6 * a):
+                            ctx.finding("Softmax/roundtrip_x/row", "backward(forward(x)) differs from x by more than 1e-6 relative",
+                                        {"rows": rows, "shape": [nrow, ncol], "x": a, "mid": float(m_), "back": float(bk)})
+        # y-direction: forward(backward(y)) on an array of the same kind of shape
+        nrow, ncol = sm_shape()
         yrows = [[rng.uniform(-12, 6) if rng.random() < 0.8 else rng.uniform(-600, 13) for _ in range(ncol)] for _ in range(nrow)]
-        yarr = np.array(yrows)
-        xx = sm.backward(yarr)
-        reqs.append(f"bwd Softmax [] {C.fmat(yrows)}")
-        checks.append(("ok", np.asarray(xx, dtype=np.float64), {"class": "Softmax", "op": "bwd", "rows": yrows, "kind": "y"}, None))
-        try:
-            with np.errstate(all="ignore"):
-                yy = sm.forward(xx)
-            for r, br in zip(yrows, yy):
-                if sum(math.exp(v) for v in r) <= 1e6:
-                    for a, bk in zip(r, br):
-                        if not (fin(float(bk)) and abs(float(bk) - a) <= 1e-6 * max(abs(a), 1.0)):
-                            ctx.finding("Softmax/roundtrip_y/row", "forward(backward(y)) differs from y by more than 1e-6",
-                                        {"rows": yrows, "y": a, "back": float(bk)})
-        except ValueError:
-            if all(sum(math.exp(v) for v in r) <= 1e6 for r in yrows):
-                ctx.finding("Softmax/roundtrip_y/rejected", "forward rejects backward(y) although sum exp(y) <= 1e6", {"rows": yrows})
+        inside = all(sum(math.exp(v) for v in r) <= 1e6 for r in yrows)
+        stx, xx = sm_call("bwd", np.array(yrows, dtype=np.float64))
+        sm_report("bwd", stx, xx, yrows, True)
+        sm_queue("bwd", stx, xx, yrows, "y")
+        if stx == "ok":
+            sty, yy = sm_call("fwd", xx)
+            xrows = [[float(v) for v in r] for r in xx]
+            sm_report("fwd", sty, yy, xrows, inside)
+            if sty == "ok":
+                for r, br in zip(yrows, yy):
+                    if sum(math.exp(v) for v in r) <= 1e6:
+                        for a, bk in zip(r, br):
+                            if not (fin(float(bk)) and abs(float(bk) - a) <= 1e-6 * max(abs(a), 1.0)):
+                                ctx.finding("Softmax/roundtrip_y/row", "forward(backward(y)) differs from y by more than 1e-6",
+                                            {"rows": yrows, "shape": [nrow, ncol], "y": a, "back": float(bk)})
+            elif sty == "err" and inside:
+                ctx.finding("Softmax/roundtrip_y/rejected", "forward rejects backward(y) although sum exp(y) <= 1e6",
+                            {"rows": yrows, "shape": [nrow, ncol], "error": yy})
 
     # ---------------- correspondence
     replies = ctx.lean.ask(reqs)
